@@ -37,6 +37,9 @@ func OpenConn(name string) *Conn {
 }
 
 func (c *Conn) Close() {
+	if c == nil {
+		return
+	}
 	if c == nil || c.DB == nil {
 		return
 	}
